@@ -23,7 +23,7 @@ from pypika_tortoise.enums import DatePart, Order
 from pypika_tortoise.dialects import MSSQLQuery, MySQLQuery, OracleQuery, PostgreSQLQuery, SQLLiteQuery
 
 LEVEL = "proof"
-THEOREMS = ["C04_styles", "C04_shape_select", "C04_shape_mssql_page", "C04_shape_mysql_update", "C04_nonvacuous"]
+THEOREMS = ["C04_thread", "C04_inline_none", "C04_thread_statement", "C04_styles", "C04_shape_select", "C04_shape_mssql_page", "C04_shape_mysql_update", "C04_nonvacuous"]
 HEADER = ("From PT Require Import Base.Str Base.Codes Model.Types Model.Value Gen.Placeholders Ref.Lexer Ref.Align Ref.ParamEq.\nOpen Scope N_scope.\n"
           "Definition j (d : dial) (own : bool) (sp : str) (vals : list pval) (si : str) : N :=\n"
           "  match c04_ok d (if own then None else Some (placeholder_style d)) sp vals si with Some true => 1 | Some false => 0 | None => 2 end.\n")
